@@ -110,6 +110,7 @@ type FV struct {
 	allocLimit Term
 
 	notes           []string
+	curCall         string // call being translated (for diagnostics)
 	noteSeen        map[string]bool
 	specErrors      []string
 	unsoundNotes    []string
@@ -453,8 +454,11 @@ func (fv *FV) checkExit(ex *Exit, k int) {
 		fv.obligeNamed(ex.env, "post", fmt.Sprintf("post:%s@return%d", cl.Label, k+1), at,
 			fmt.Sprintf("postcondition %q at return on line %d", cl.Text, line), t)
 	}
-	if u.C.HasMod {
+	if u.C.HasMod && !u.C.TrustFrame {
 		fv.checkFrame(ex, k, at)
+	}
+	if u.C.TrustFrame {
+		fv.trustedUsed["frame (modifies clause) of "+u.Name()+" is assumed, not checked against its body"] = true
 	}
 }
 
